@@ -217,13 +217,13 @@ PROPS = {
     'C11': dict(
         modules=['Resonate.Properties.C11'],
         tie_filter=r'promiseSelectAll|promiseUpdate|taskSelectAll|taskUpdate|lockTimeout|scheduleSelectAll|scheduleUpdate|taskSelectEnqueueable|shape|wiring',
-        harness=[sysdiff('sysdiff-converge', None, (20, 100), (400, 150), 'C11,C01', ['-smallcfg', '-routed', '50', '-fail', '10', '-crash', '1', '-known', 'F16,F5'], (120, 120)),
+        harness=[sysdiff('sysdiff-converge', None, (20, 100), (400, 150), 'C11,C01', ['-smallcfg', '-routed', '50', '-fail', '10', '-crash', '1', '-known', 'F16,F18,F5'], (120, 120)),
                  dict(bin='stackrun', name='stackrun', quick=['-rounds', '45'], thorough=['-rounds', '1000'], search=['-rounds', '300'])],
         rule=SYS_RULE + '; after every script the clients stop and the server idles: each cycle advances the clock by the signal timeout and then ticks until nothing is in flight (every hand-off succeeds, '
              'no injected failure); batch sizes (promise / schedule / task 1..100), pool and queue sizes (down to 1), enqueue delay and signal timeout are drawn per script; the C11 monitor gives every '
              'item that needs attention (promise pending past its timeout, lock past its lease, enqueued / claimed task past its lease or timeout) a deadline in cycles when it is first seen — '
              '5*ceil(items ahead / batch) + 6, the factor 5 because the five sweeps take turns when the pool is small — and requires every schedule that is behind and whose period is longer than the '
-             'interval between two runs of SchedulePromises to reduce its lag within 12 cycles; schedules that cannot catch up by design are finding F16; non-trivial = scripts whose idle phase ran to the end (counted)',
+             'interval between two runs of SchedulePromises to reduce its lag within 12 cycles (the idle phase is extended until every lagging schedule has had that verdict); schedules that cannot catch up because occurrences fall due at least as fast as a run fires them (period <= run interval, or occurrences per run >= ScheduleBatchSize) are finding F16, schedules whose id template does not evaluate and the schedules they keep out of the batch are finding F18 (C11.skipped_batch_writes_nothing_F18 is the model-side statement); non-trivial = scripts whose idle phase ran to the end (counted)',
         assumptions=['a cycle of the idle server completes (no store / router / transport failure during the idle phase; failures before it are part of the scripts)',
                      'the late-task clause is not checked when the enqueue delay is shorter than one cycle (a re-dispatched unclaimed task is then late again at once and the sweep batch is ordered by root)',
                      'unique promise / task ids and legal task states (hypotheses of the measure theorems; PromIds is proved over all runs)'],
